@@ -43,7 +43,7 @@ Definition spec_step (d : db) (st : stmt) : db :=
 
 (* ====================== nextFreeOffset never decreases ====================== *)
 Lemma st_update_free s n k cols vals : nextFree (fst (st_update s n k cols vals)) = nextFree s.
-Proof. unfold st_update. repeat (break_match; cbn [fst nextFree]; try reflexivity). Qed.
+Proof. unfold st_update, st_update0. repeat (break_match; cbn [fst nextFree]; try reflexivity). Qed.
 
 Lemma st_delete_free s n k : nextFree (fst (st_delete s n k)) = nextFree s.
 Proof. unfold st_delete. repeat (break_match; cbn [fst nextFree]; try reflexivity). Qed.
@@ -155,12 +155,14 @@ Proof.
     destruct (is_sys n) eqn:Hsys.
     { rewrite (find_tbl_sys d n (r_dbok _ _ HR) Hsys).
       destruct rows as [|r rest]; [cbn in Er; inversion Er; subst; exact HR|].
-      exfalso. cbn [insert_rows] in Er. unfold st_insert in Er. rewrite is_sys_table_is_sys, Hsys in Er. inversion Er. }
+      exfalso. cbn [insert_rows] in Er. unfold st_insert, ins_bad_cols, st_insert0 in Er.
+      rewrite is_sys_table_is_sys, Hsys in Er. inversion Er. }
     destruct (find_tbl n d) as [t|] eqn:Hf.
     + destruct (insert_rows_rep n cols rows s d t [] 0%nat s1 b c HR Hsys Hf Hvals Hmax Er) as (new & Hnew & HR1).
       rewrite Hnew. exact HR1.
     + destruct rows as [|r rest]; [cbn in Er; inversion Er; subst; exact HR|].
-      exfalso. cbn [insert_rows] in Er. unfold st_insert in Er. rewrite is_sys_table_is_sys, Hsys in Er.
+      exfalso. cbn [insert_rows] in Er. unfold st_insert, ins_bad_cols, st_insert0 in Er.
+      rewrite is_sys_table_is_sys, Hsys in Er.
       destruct HR as [Hinv Hok (pt & sc & ents & osc & HC)].
       rewrite (cat_rel_offset_none s d pt sc ents osc Hinv HC n Hsys Hf) in Er. cbn [bind] in Er. inversion Er.
   - (* UPDATE *)
@@ -173,8 +175,8 @@ Proof.
     destruct (is_sys n) eqn:Hsys.
     { rewrite (find_tbl_sys d n (r_dbok _ _ HR) Hsys).
       destruct ids as [|k rest]; [cbn in *; exact HR|].
-      exfalso. cbn [update_rows] in Hout. unfold st_update in Hout. rewrite is_sys_table_is_sys, Hsys in Hout.
-      cbn in Hout. discriminate. }
+      exfalso. cbn [update_rows] in Hout. unfold st_update, upd_bad_cols, st_update0 in Hout.
+      rewrite is_sys_table_is_sys, Hsys in Hout. cbn in Hout. discriminate. }
     destruct (find_tbl n d) as [t|] eqn:Hf.
     2:{ exfalso. unfold where_ids in Ew. rewrite (st_fetch_missing s d n HR Hsys Hf) in Ew. discriminate. }
     destruct (where_ids_spec s n w ids Ew) as (idrows & fs & Hfetch & Hids & Hev).
@@ -184,7 +186,7 @@ Proof.
     assert (Efr : fetch_rows s n = combine (keys_of (scan_tree tr)) (tb_rows t)) by (unfold fetch_rows; rewrite Hfetch'; reflexivity).
     rewrite <- Efr in *.
     destruct (update_rows s n (map fst sets) (set_vals sets) ids []) as [[s1 b] o1] eqn:Eu. cbn [e_store e_out] in *. subst o1.
-    destruct (update_rows_rep n (map fst sets) (set_vals sets) ids s d t [] s1 b c HR Hsys Hf Hv) as (HR1 & _ & Hchk); auto.
+    destruct (update_rows_rep n (map fst sets) (set_vals sets) ids s d t [] s1 b c HR Hsys Hf Hv) as (HR1 & _ & Hchk & Hce); auto.
     { intros k Hk. subst ids. apply in_map_iff in Hk as (kr & <- & Hkr). apply filter_In in Hkr as [Hkr _]. apply in_map. exact Hkr. }
     { subst ids. apply NoDup_map_filter. exact Hndk. }
     rewrite <- Hrows.
@@ -193,6 +195,10 @@ Proof.
       unfold upd_ids. apply map_ext_in. intros kr Hkr. subst ids. rewrite (existsb_ids_pred _ _ kr Hndk Hkr). reflexivity.
     + intros [k r] Hkr Hp. cbn [snd]. apply (Hchk k r); [|exact Hkr].
       subst ids. change k with (fst (k, r)). apply in_map. apply filter_In. auto.
+    + intros [k r] Hkr Hp. apply Hce. subst ids. intros E.
+      assert (X : In (fst (k, r)) (map fst (filter (sel_pred w (fields_of (tb_schema t))) (fetch_rows s n))))
+        by (apply in_map; apply filter_In; auto).
+      rewrite E in X. exact X.
   - (* DELETE *)
     cbn [run_stmt] in *. unfold spec_step. cbn [spec_exec].
     destruct (where_ids s n w) as [ids|e|] eqn:Ew; cbn [e_out e_store] in *; try discriminate.
